@@ -11,9 +11,10 @@ GROUP = dict(
     opaque_by_value=[TQ, 'babylon::MoveOnlyFunction<void()>', ETL, 'std::vector<std::thread>', 'std::thread', 'std::chrono::duration<long,std::ratio<1,1000000>>', 'std::string'],
     extra_structs={IT: 'struct @ { struct std_thread *p; };'},
     outside_methods={'std::vector<std::thread>': ['size', 'clear', 'begin', 'end', 'empty'], 'std::thread': ['join', 'joinable', 'detach'], IT: ['operator!=', 'operator==', 'operator++', 'operator*']},
-    outside_funcs={'usleep': 'vf_usleep', 'operator!=': 'vf_thread_iter_ne', 'operator==': 'vf_thread_iter_eq'},
+    outside_funcs={'usleep': 'vf_usleep', 'sleep_for': 'vf_sleep_for', 'operator!=': 'vf_thread_iter_ne', 'operator==': 'vf_thread_iter_eq'},
     extern_re=[r'ConcurrentBoundedQueue<.*>::', r'MoveOnlyFunction<void\s*\(\)>::', r'EnumerableThreadLocal<.*>::', r'Executor::', r'RunnerScope::'],
     roots=[{'lambda_in': E + '::keep_execute', 'ordinal': 1}, E + '::keep_execute', E + '::enqueue_task', E + '::invoke', E + '::stop', E + '::wakeup_one_worker',
+           E + '::keep_balance', {'lambda_in': E + '::keep_balance', 'ordinal': 1}, {'lambda_in': E + '::keep_balance', 'ordinal': 2},
            'babylon::InplaceExecutor::invoke', N + '::invoke', N + '::join', {'lambda_in': N + '::invoke', 'ordinal': 1}],
     reviewed_compiler_conditionals=['src/babylon/concurrent/bounded_queue.h:#if !__clang__ && BABYLON_GCC_VERSION < 50000'],
     assumptions=['ConcurrentBoundedQueue push/pop/try_pop/size, EnumerableThreadLocal local()/for_each, std::thread and std::vector<std::thread> are contract stubs: a pop delivers a task that was pushed, once (C01); join returns when the thread function returned',
@@ -25,6 +26,10 @@ GROUP = dict(
         dict(id='C07.enqueue_task', enforce='Pool_enqueue_task', backend='cadical'),
         dict(id='C07.invoke', enforce='Pool_invoke', backend='cadical'),
         dict(id='C07.wakeup_one_worker', enforce='Pool_wakeup_one_worker', backend='cadical'),
+        dict(id='C07.balance.task', enforce='Pool_keep_balance_lambda_executor_keep_balance_1_op_call__TaskR_const', replace=['Pool_enqueue_task'], backend='cadical', defines=['VF_BALANCE 1']),
+        dict(id='C07.balance.range', enforce='Pool_keep_balance_lambda_executor_keep_balance_1_op_call__SchedInterface_RP_SchedInterface_RP_const', replace=['Pool_keep_balance_lambda_executor_keep_balance_1_op_call__TaskR_const'], loops=True, backend='cadical', defines=['VF_BALANCE 1'], object_bits=10,
+             covers=['g_qb > g_qa + 2 && g_bpops > 3']),
+        dict(id='C07.balance', enforce='Pool_keep_balance', replace=['Pool_keep_balance_lambda_executor_keep_balance_1_op_call__SchedInterface_RP_SchedInterface_RP_const'], loops=True, backend='cadical', defines=['VF_BALANCE 1'], object_bits=10),
         dict(id='C07.inplace.invoke', enforce='InplaceExecutor_invoke', backend='cadical'),
         dict(id='C07.newthread.invoke', enforce='AlwaysUseNewThreadExecutor_invoke', backend='cadical'),
         dict(id='C07.newthread.body', enforce='AlwaysUseNewThreadExecutor_invoke_lambda_executor_invoke_1_op_call', backend='cadical'),
